@@ -65,6 +65,7 @@ theorem generated_o_case_for_c13 : oPlace = .temp ∧ renameSrcTemp = true := by
 
 
 
+
 -- BEGIN PINS (written by bin/mkpins; do not edit by hand)
 /-- the Go functions this property's model and obligations were written against have exactly the
 pinned skeletons (SHA-256 prefix of the atom list) -/
